@@ -1196,6 +1196,7 @@ class Runner:
         for i in range(len(want)):
             m = ilpy.Machine(funcs)
             m.globals = gaddr
+            m.fill = 0xa5          # stack garbage: what is not stored stays visible
             try:
                 got.append(m.call("g_" + o.name, [i]))
             except ilpy.Trap as e:
